@@ -321,7 +321,57 @@ def r17_5(ctx):
     anon = er[0].symbols[0][0]
     ctx.check("explicit register pattern", gm.terminals[anon]["value"] == r"[RCPVQMGS][0-31]{1,2}(:[0-31]{1,2})?", r"[RCPVQMGS][0-31]{1,2}(:[0-31]{1,2})?", gm.terminals[anon]["value"], gm.where("explicit_reg"))
     ctx.check("explicit register keeps its tokens (`!rule`) and has a _NEW placeholder", all(a.keep_all for a in er) and {len(a.children) for a in er} == {2}, "keep_all_tokens, 2 children", str([(a.keep_all, len(a.children)) for a in er]), gm.where("explicit_reg"))
+    postfix_literal_checks(ctx)
     ctx.check("IDENTIFIER pattern", gm.terminals["IDENTIFIER"]["value"] == r"[A-Za-z_]+\w*", r"[A-Za-z_]+\w*", gm.terminals["IDENTIFIER"]["value"], gm.where("IDENTIFIER"))
+
+
+def postfix_literal_checks(ctx):
+    """a pattern terminal that is followed by a literal postfix (`<alias name>` `_NEW`, `<explicit register>` `_NEW`): Lark's dynamic lexer
+    tries only the longest match of the pattern, so the pattern must stop in front of the postfix - otherwise the postfix is never seen and
+    the word silently falls to the catch-all identifier.  Probes: the alias / register names of the dialect."""
+    gm = get_grammar(ctx.env)
+    names = set(O.ALIAS_PROBES)
+    hdr = ctx.env.repo / "Resources" / "Hexagon" / "Preprocessor" / "patches_macros.h"
+    if hdr.is_file():
+        names |= {m for m in re.findall(r"HEX_REG_ALIAS_([A-Z0-9]+)\b", hdr.read_text(errors="replace")) if not m.endswith("_NEW")}
+    probes = sorted(names) + ["R0", "R31", "P3", "C9", "R1:0", "R17:16", "M1", "V0", "Q3", "G1", "S2"]
+
+    def lit_of(sym):
+        t = gm.terminals.get(sym)
+        if t is not None:
+            return t["value"] if t["kind"] == "str" else None
+        alts = gm.rules.get(sym, [])
+        vals = {lit_of(a.symbols[0][0]) if len(a.symbols) == 1 else None for a in alts}
+        return vals.pop() if len(vals) == 1 else None
+
+    pairs = 0
+    for rname, alts in gm.rules.items():
+        for a in alts:
+            syms = [x[0] for x in a.symbols]
+            for n_, (t_, nx) in enumerate(zip(syms, syms[1:])):
+                t = gm.terminals.get(t_)
+                lit = lit_of(nx)
+                if t is None or t["kind"] != "re" or not lit:
+                    continue
+                try:
+                    rx = re.compile(t["value"], re.I if "i" in t["flags"] else 0)
+                except re.error:
+                    continue
+                ws = [w for w in probes if rx.fullmatch(w)]
+                if not ws:
+                    continue
+                pairs += 1
+                bad = [f"{w}{lit}: the pattern takes {rx.match(w + lit).group(0)!r}" for w in ws if rx.match(w + lit).end() != len(w)]
+                ctx.check(f"{rname}: /{t['value']}/ stops in front of the postfix {lit!r} ({len(ws)} probe names)", not bad, f"the name, then {lit!r}", "; ".join(bad[:4]) or "stops", gm.where(rname))
+    ctx.check("pattern terminals followed by a literal postfix were found (alias and explicit register names before _NEW)", pairs >= 2, ">= 2 (pattern, postfix) pairs", str(pairs), gm.where("reg_alias"))
+    # the alias names of the dialect are classified as alias names
+    al = gm.rules.get("reg_alias", [])
+    ctx.need(al, "rule reg_alias missing")
+    t0 = gm.terminals.get(al[0].symbols[0][0])
+    if t0 is not None and t0["kind"] == "re":
+        rx = re.compile(t0["value"])
+        miss = [w for w in sorted(names) if not rx.fullmatch(w)]
+        ctx.check("every alias name of the dialect matches the alias name pattern", not miss, "all match", f"not matched: {miss[:6]}" if miss else "all match", gm.where("reg_alias"))
 
 
 @rule("R17.6", "C17", "both Lark parser construction sites use the same grammar file and options", min_instances=2)
